@@ -738,3 +738,77 @@ Lemma indexer_progress_refuted :
   exists (c : chain) (size confirms : N),
     size mod 8 = 0 /\ known_sections c size confirms = 1 /\ stored_sections c size confirms = 0.
 Proof. exists w_chain, 8, 0. vm_compute. repeat split. Qed.
+
+(* ------------------------------------------------------------------ *)
+(* NewMatcher on raw clauses; what filters.New produces is the nil-free case *)
+(* ------------------------------------------------------------------ *)
+
+Lemma clause_bits_some H l : clause_bits H (map Some l) = Some (map (calc_bloom_indexes H) l).
+Proof. induction l as [|x l IH]; [reflexivity|]. cbn [map clause_bits]. rewrite IH. reflexivity. Qed.
+
+Theorem matcher_filters_is_new_matcher : forall (H : bytes -> bytes) (addrs : list bytes) (tops : list (list bytes)),
+  matcher_filters H addrs tops
+  = new_matcher_filters H (map (map Some) ((match addrs with [] => [] | _ => [addrs] end) ++ tops)).
+Proof.
+  intros H addrs tops. unfold matcher_filters, new_matcher_filters.
+  generalize ((match addrs with [] => [] | _ => [addrs] end) ++ tops). intro cls.
+  induction cls as [|cl cls IH]; [reflexivity|]. cbn [filter map flat_map].
+  destruct cl as [|x cl]; [exact IH|].
+  change (map Some (x :: cl)) with (Some x :: map Some cl).
+  change (Some x :: map Some cl) with (map Some (x :: cl)) at 2.
+  rewrite clause_bits_some. cbn [map app]. f_equal. exact IH.
+Qed.
+
+(* a clause with a nil alternative, and an empty clause, constrain nothing *)
+Theorem new_matcher_nil_is_wildcard : forall (H : bytes -> bytes) (pre post : list (list (option bytes))) (a b : list (option bytes)),
+  new_matcher_filters H (pre ++ (a ++ None :: b) :: post) = new_matcher_filters H (pre ++ post)
+  /\ new_matcher_filters H (pre ++ [] :: post) = new_matcher_filters H (pre ++ post).
+Proof.
+  intros H pre post a b. unfold new_matcher_filters. rewrite !flat_map_app. cbn [flat_map]. split; [|reflexivity].
+  f_equal. assert (Hn : clause_bits H (a ++ None :: b) = None).
+  { induction a as [|[x|] a IH]; cbn [app clause_bits]; [reflexivity|rewrite IH; reflexivity|reflexivity]. }
+  rewrite Hn. destruct (a ++ None :: b); reflexivity.
+Qed.
+
+(* ------------------------------------------------------------------ *)
+(* constants regenerated from the source tree every run                 *)
+(* ------------------------------------------------------------------ *)
+From AQ Require Import Generated.GenParamsBloom.
+
+(* the literals the model carries are the current constants of the code *)
+Theorem params_match_bloom :
+  g_bloom_bit_length = 2048 /\ N.of_nat bloom_bit_length = g_bloom_bit_length /\
+  g_bloom_byte_length * 8 = g_bloom_bit_length /\ lenN (bloom_bytes 0) = g_bloom_byte_length /\
+  g_bloom9_max_bit_observed < g_bloom_bit_length /\
+  g_bloom_confirms = g_params_bloom_confirms /\
+  g_new_generator_accepts_production_size = true.
+Proof. vm_compute. repeat split; reflexivity. Qed.
+
+(* at the production section size a section always commits and stores the transposed blooms
+   (fails to check if BloomBitsBlocks is ever set below the bloom bit length or off a multiple of 8) *)
+Theorem production_section_commits : forall blooms : list N,
+  lenN blooms = g_bloom_bits_blocks ->
+  exists rows, process_section g_bloom_bits_blocks blooms = GOk rows /\ length rows = bloom_bit_length /\
+    forall i k, (i < bloom_bit_length)%nat -> k < g_bloom_bits_blocks ->
+      N.testbit (nth i rows 0) k = N.testbit (nth (N.to_nat k) blooms 0) (N.of_nat i).
+Proof.
+  intros blooms Hlen. apply process_section_ok_partial; [vm_compute; discriminate|reflexivity|exact Hlen].
+Qed.
+
+(* ------------------------------------------------------------------ *)
+(* toBlock = "pending" (-2) through aqua_getLogs                        *)
+(* ------------------------------------------------------------------ *)
+(* Filter.Logs turns f.end = -2 into end = 2^64-2: the indexed part runs to sections*size-1 and the
+   unindexed loop `f.begin <= int64(end)` compares with -2 and never runs.  Witness: one block with
+   one log, nothing indexed, no criteria. *)
+Definition w_logchain : chain := [mkBlock 0 [[mkLog [] [] [] 7]]].
+
+Lemma toblock_pending_refuted :
+  exists (H : bytes -> bytes) (c : chain) (idx : index) (size sections : N),
+    c <> [] /\ 0 < size /\ sections * size <= lenN c /\
+    filter_query H [] [] c idx size sections 0 (-2) = [] /\
+    brute_force [] [] c 0 (-1) <> [].
+Proof.
+  exists (fun _ => []), w_logchain, (fun _ _ => []), 8, 0.
+  repeat split; try discriminate; reflexivity.
+Qed.
